@@ -100,6 +100,10 @@ def infiltration(
     assert Infl >= 0
 
     ## Determine surface storage (if bunds are present) ##
+    if FieldMngt_Bunds and not (FieldMngt_zBund > 0.001):
+        # Bund height too small to be considered (as in rainfall_partition): no bunds
+        FieldMngt_Bunds = False
+
     if FieldMngt_Bunds:
         # bunds on field
         if FieldMngt_zBund > 0.001:
